@@ -1,10 +1,11 @@
 (* C12 - Printing and parsing are inverse and printing is unambiguous. *)
 From Coq Require Import List Bool String Ascii.
-From Y0 Require Import Base.ListSet Dsl.Syntax Dsl.Tok Dsl.Build Dsl.Print Dsl.Parse Proofs.DslP Proofs.RoundTripBounded Proofs.TokenizeP Proofs.ParseP.
+From Y0 Require Import Base.ListSet Dsl.Syntax Dsl.Tok Dsl.Build Dsl.Print Dsl.Parse Proofs.DslP Proofs.RoundTripBounded Proofs.TokenizeP Proofs.ParseP Proofs.EvalP.
 Import ListNotations.
 Open Scope string_scope.
 
-(* Full statement of the object-equality clause (kept visible); proved below on a finite family only. *)
+(* Full statement of the object-equality clause (kept visible). Proved below (C12_round_trip) with [wf_rt] - operator normal form - in place of
+   'built through the public operators'; that every expression the operators build is in that normal form is shown on the bounded family only. *)
 Definition C12_statement : Prop :=
   forall e, is_err e = false -> simple_div false e = true ->
     parse_y0 (to_y0 e) = e /\ to_y0 (parse_y0 (to_y0 e)) = to_y0 e.
@@ -16,8 +17,7 @@ Definition C12_statement : Prop :=
    left-associative * / @, then unary + - ~, then calls and subscripts - reads those tokens as the operator tree [ast_of e] the
    printer means: factors of a product chained to the left, a fraction as numerator / denominator with a product denominator
    bracketed, sums, subscripts and argument lists nested as printed. [printable]: no error value inside, every term has a child,
-   products are non-empty and flat. The parser's fuel (4 * tokens + 8) is shown sufficient. What remains bounded (below) is the
-   evaluation layer only: that applying y0's operators along [ast_of e] rebuilds e. *)
+   products are non-empty and flat. The parser's fuel (4 * tokens + 8) is shown sufficient. *)
 Theorem C12_tokenizer_reads_back_the_printed_tokens e :
   names_ok e = true -> tokenize (to_y0 e) = map snd (toks e).
 Proof. exact (tokenize_to_y0 e). Qed.
@@ -33,6 +33,32 @@ Example C12_parse_not_vacuous :
   names_ok e = true /\ printable e = true /\
   exists s p, ast_of e = ABin "/"%char (ACall s [ABin "*"%char (ACall (AName "P") [ABin "|"%char (AName "A") (AName "B")]) (ACall (AName "P") [AName "B"])]) p.
 Proof. cbv zeta. split; [reflexivity|]. split; [reflexivity|]. eexists. eexists. vm_compute. reflexivity. Qed.
+
+(* THE OBJECT-EQUALITY CLAUSE, unbounded: for every expression in operator normal form [wf_rt] - what the public operators build:
+   terms (long form P(..) and short form P[interventions](..), plain or population-tagged) with sorted duplicate-free children and
+   parents over plain variables, values (+X / -X) and counterfactual variables with a normalised intervention set; sorted products
+   of >= 2 terms / sums / Q factors; sums over sorted plain variables; divisions with division-free, non-constant operands that are
+   not factors of a product (exactly the condition of the property) - parsing the printed form gives back the object, which prints
+   to the same text. All three layers compose: tokenizer, precedence parser, evaluation of y0's overloaded operators along the tree.
+   [wf_rt] holds of every member of the bounded family below that satisfies the property's condition (C12_normal_form_covers_the_family). *)
+Theorem C12_round_trip e :
+  wf_rt e = true -> parse_y0 (to_y0 e) = e /\ to_y0 (parse_y0 (to_y0 e)) = to_y0 e.
+Proof. exact (round_trip e). Qed.
+
+(* not vacuous: Sum[B](P(A | B) * P(B)) / PP[S](C, +D, E @ (-A, +B))  and the short form  P[A, +B](C | -D) *)
+Example C12_round_trip_not_vacuous :
+  wf_rt (EFrac (ESum (EProd [EProb None [V 0] [V 1]; EProb None [V 1] []]) [V 1])
+               (EProb (Some (V 16)) [V 2; mkVar KIv 3 (Some true) []; mkVar KCf 4 None [(0, false); (1, true)]] [])) = true /\
+  wf_rt (EProb None [mkVar KCf 2 None [(0, false); (1, true)]] [mkVar KCf 3 (Some false) [(0, false); (1, true)]]) = true /\
+  to_y0 (EProb None [mkVar KCf 2 None [(0, false); (1, true)]] [mkVar KCf 3 (Some false) [(0, false); (1, true)]]) = "P[A,+B](C | -D)".
+Proof. vm_compute. auto. Qed.
+
+Theorem C12_normal_form_covers_the_family :
+  forall e, In e family -> is_err e = false -> simple_div false e = true -> wf_rt e = true.
+Proof.
+  assert (H : forallb (fun e => implb (negb (is_err e) && simple_div false e) (wf_rt e)) family = true) by (vm_compute; reflexivity).
+  intros e He Hn Hs. rewrite forallb_forall in H. specialize (H e He). rewrite Hn, Hs in H. exact H.
+Qed.
 
 Theorem C12_product_denominator_is_bracketed n ds :
   to_y0 (EFrac n (EProd ds)) = "((" ++ to_y0 n ++ " / " ++ ("(" ++ to_y0 (EProd ds) ++ ")") ++ "))".
@@ -51,6 +77,8 @@ Proof. exact round_trip_bounded. Qed.
 
 Print Assumptions C12_tokenizer_reads_back_the_printed_tokens.
 Print Assumptions C12_printed_text_parses_to_the_intended_tree.
+Print Assumptions C12_round_trip.
+Print Assumptions C12_normal_form_covers_the_family.
 Print Assumptions C12_product_denominator_is_bracketed.
 Print Assumptions C12_old_printer_refuted.
 Print Assumptions C12_round_trip_partial_bounded.
